@@ -47,6 +47,7 @@ import (
 	"math"
 	"sort"
 	"strings"
+	"sync"
 	"testing"
 	"testing/synctest"
 	"time"
@@ -61,6 +62,12 @@ import (
 )
 
 const nDirected = 8
+
+// checkRemoteOutboundSR switches the sub-oracle for RemoteOutbound.{PacketsSent,BytesSent,
+// RemoteTimeStamp,ReportsSent}. The statement's list names the remote-outbound round-trip
+// time only; these four are covered by its general clause ("the reported counters equal
+// a recount ... for that SSRC only"). Set to false to restrict the check to the list.
+const checkRemoteOutboundSR = true
 
 func cases(tier string) int {
 	if tier == "thorough" {
@@ -823,7 +830,7 @@ func (m *model) resync(f field, got float64) {
 // the world: interceptor + harness-owned inner readers/writers + clock
 
 type evid struct {
-	blocksMatched, rttMust, rttMay, dlrrMust, dlrrMay    int64
+	blocksMatched, rttMust, rttMay, dlrrMust, dlrrMay        int64
 	firBoth, firFCIOnly, firMediaOnly, srOwn, srOtherMention int64
 }
 
@@ -1042,7 +1049,7 @@ func (w *world) violation(s *stream, sig, format string, args ...any) {
 		fmt.Fprintf(&b, " %#x", t.ssrc)
 	}
 	b.WriteString("\nhistory (most recent last):\n")
-	from := len(w.hist) - 10
+	from := len(w.hist) - 16
 	if from < 0 {
 		from = 0
 	}
@@ -1099,6 +1106,9 @@ func (w *world) query(pre map[*stream]*model, pkts []rtcp.Packet, ts []int64) {
 		}
 		// RTCP-fed figures
 		for f := field(0); f < nFields; f++ {
+			if !checkRemoteOutboundSR && f >= fRoPk && f <= fRoReports {
+				continue
+			}
 			got := gotValue(st, f)
 			w.add("rtcp_figures_compared", 1)
 			if m.fieldOK(f, got) {
@@ -1106,11 +1116,27 @@ func (w *world) query(pre map[*stream]*model, pkts []rtcp.Packet, ts []int64) {
 			}
 			labels := 0
 			if pre != nil && pre[s] != nil {
+				// smallest set of live hypotheses that explains this figure; among equally
+				// small ones, one that explains every figure of the SSRC is preferred.
+				size := 0
 				for _, hyp := range hypOrder {
+					if hyp&^liveHyps(w.c) != 0 || (labels != 0 && popcount(hyp) > size) {
+						continue
+					}
 					alt := pre[s].clone()
 					var ev evid
 					alt.applyInRTCP(pkts, ts, hyp, &ev)
-					if alt.fieldOK(f, got) {
+					if !alt.fieldOK(f, got) {
+						continue
+					}
+					all := true
+					for g := field(0); g < nFields; g++ {
+						all = all && alt.fieldOK(g, gotValue(st, g))
+					}
+					if labels == 0 {
+						labels, size = hyp, popcount(hyp)
+					}
+					if all {
 						labels = hyp
 
 						break
@@ -1132,24 +1158,110 @@ func (w *world) query(pre map[*stream]*model, pkts []rtcp.Packet, ts []int64) {
 	}
 }
 
+func popcount(x int) int {
+	n := 0
+	for ; x != 0; x &= x - 1 {
+		n++
+	}
+
+	return n
+}
+
 // hypothesis subsets ordered by size, so that the smallest explanation labels a witness.
 var hypOrder = func() []int {
 	var out []int
 	for h := 1; h < 1<<nHyp; h++ {
 		out = append(out, h)
 	}
-	pop := func(x int) int {
-		n := 0
-		for ; x != 0; x &= x - 1 {
-			n++
-		}
-
-		return n
-	}
-	sort.SliceStable(out, func(i, j int) bool { return pop(out[i]) < pop(out[j]) })
+	sort.SliceStable(out, func(i, j int) bool { return popcount(out[i]) < popcount(out[j]) })
 
 	return out
 }()
+
+// liveHyps probes, once per process, which of the labelling hypotheses the tree under
+// test actually exhibits (by playing the four minimal witnesses against a private
+// interceptor). Only those are used to label, so that a witness is never filed under the
+// name of a defect the tree does not have. Must be called inside the bubble.
+var (
+	liveOnce sync.Once
+	liveSet  int
+)
+
+func liveHyps(c *vf.Case) int {
+	liveOnce.Do(func() {
+		const S, O, X = 0x1111, 0x2222, 0x9999
+		base := time.Date(2024, 6, 1, 12, 0, 0, 0, time.UTC)
+		probe := func(out [][]rtcp.Packet, in []rtcp.Packet) *stats.Stats {
+			now := base
+			f, err := stats.NewInterceptor(stats.SetNowFunc(func() time.Time { return now }))
+			if err != nil {
+				return nil
+			}
+			var g stats.Getter
+			f.OnNewPeerConnection(func(_ string, gg stats.Getter) { g = gg })
+			icpt, err := f.NewInterceptor("probe")
+			if err != nil || g == nil {
+				return nil
+			}
+			defer icpt.Close() //nolint:errcheck
+			raw, err := rtcp.Marshal(in)
+			if err != nil {
+				return nil
+			}
+			rd := icpt.BindRTCPReader(interceptor.RTCPReaderFunc(
+				func(b []byte, a interceptor.Attributes) (int, interceptor.Attributes, error) {
+					return copy(b, raw), a, nil
+				}))
+			wr := icpt.BindRTCPWriter(interceptor.RTCPWriterFunc(
+				func(p []rtcp.Packet, _ interceptor.Attributes) (int, error) { return len(p), nil }))
+			for _, ssrc := range []uint32{S, O} {
+				icpt.BindLocalStream(&interceptor.StreamInfo{SSRC: ssrc, ClockRate: 90000}, interceptor.RTPWriterFunc(
+					func(_ *rtp.Header, p []byte, _ interceptor.Attributes) (int, error) { return len(p), nil }))
+			}
+			synctest.Wait()
+			for _, o := range out {
+				_, _ = wr.Write(o, nil)
+				now = now.Add(10 * time.Millisecond)
+			}
+			now = now.Add(time.Second)
+			_, _, _ = rd.Read(make([]byte, 1500), nil)
+			synctest.Wait()
+
+			return g.Get(S)
+		}
+		xr := &rtcp.ExtendedReport{SenderSSRC: X, Reports: []rtcp.ReportBlock{
+			&rtcp.DLRRReportBlock{Reports: []rtcp.DLRRReport{{SSRC: S}}}}}
+		if st := probe(nil, []rtcp.Packet{xr, &rtcp.PictureLossIndication{SenderSSRC: X, MediaSSRC: S}}); st != nil &&
+			st.OutboundRTPStreamStats.PLICount == 0 {
+			liveSet |= hXR
+		}
+		if st := probe(nil, []rtcp.Packet{&rtcp.FullIntraRequest{SenderSSRC: X, FIR: []rtcp.FIREntry{{SSRC: S}}}}); st != nil &&
+			st.OutboundRTPStreamStats.FIRCount == 0 {
+			liveSet |= hFIR
+		}
+		if st := probe(nil, []rtcp.Packet{&rtcp.SenderReport{SSRC: O, NTPTime: toNTP(base), PacketCount: 7,
+			Reports: []rtcp.ReceptionReport{{SSRC: S}}}}); st != nil && st.RemoteOutboundRTPStreamStats.ReportsSent != 0 {
+			liveSet |= hSR
+		}
+		outs := [][]rtcp.Packet{{&rtcp.SenderReport{SSRC: S, NTPTime: toNTP(base)}}}
+		for i := 1; i <= 5; i++ {
+			outs = append(outs, []rtcp.Packet{&rtcp.SenderReport{SSRC: X,
+				NTPTime: toNTP(base.Add(time.Duration(i) * 10 * time.Millisecond)), Reports: []rtcp.ReceptionReport{{SSRC: S}}}})
+		}
+		if st := probe(outs, []rtcp.Packet{&rtcp.ReceiverReport{SSRC: X, Reports: []rtcp.ReceptionReport{
+			{SSRC: S, LastSenderReport: mid32(toNTP(base)), Delay: 32768}}}}); st != nil &&
+			st.RemoteInboundRTPStreamStats.RoundTripTimeMeasurements == 0 {
+			liveSet |= hEvict
+		}
+		for h := 1; h < 1<<nHyp; h <<= 1 {
+			if liveSet&h != 0 {
+				c.Add("processes_where_probe_found_defect/"+hypSig[h], 1)
+			}
+		}
+	})
+
+	return liveSet
+}
 
 // ---------------------------------------------------------------------------------
 // operations
@@ -1321,7 +1433,9 @@ func (w *world) inRTCP(pkts []rtcp.Packet, readErr bool) {
 	before := w.clk.peek()
 	buf := make([]byte, len(raw)+w.r.Pick(0, 4, 1500))
 	n, _, rerr := w.rtcpR.Read(buf, w.attrs())
-	w.log(func() string { return fmt.Sprintf("inRTCP t=%s readErr=%v %s", fmtT(before), readErr, descCompound(parsed)) })
+	w.log(func() string {
+		return fmt.Sprintf("inRTCP t=%s readErr=%v %s", fmtT(before), readErr, descCompound(parsed))
+	})
 	w.h.Int(3)
 	if readErr {
 		w.add("rtcp_in_read_errors", 1)
